@@ -189,3 +189,130 @@ Proof.
 Qed.
 
 End announce2.
+
+(* ---------------------------------------------------------------- the parameter part, letter by letter *)
+Section announce3.
+Context (c : conn) (client target nick : str) (r : rank).
+
+(* an accepted rank letter appends exactly " <sign><letter> <nick>" to the parameter part of the announcement
+   and leaves the two flag groups and the replies to the sender alone *)
+Theorem mode_char_rank_announced ch rl mode_set arg args m m' ms' args' :
+  rankletter_of ch = Some rl -> rank_may rl r = true -> arg ∈ dom (ch_users (ms_chan m)) ->
+  mode_char c client target nick r ch mode_set (arg :: args) m = Ok (m', ms', args') ->
+  ms_params m' = ms_params m ++ [c_space; (if mode_set then c_plus else c_minus); ch; c_space] ++ arg /\
+  ms_set m' = ms_set m /\ ms_unset m' = ms_unset m /\ ms_out m' = ms_out m /\
+  ms_limit_entry m' = ms_limit_entry m /\ ms_key_entry m' = ms_key_entry m.
+Proof.
+  intros Hl Hr Hin. unfold rankletter_of in Hl.
+  assert (ch = 113 \/ ch = 97 \/ ch = 111 \/ ch = 104 \/ ch = 118) as Hch.
+  { repeat match type of Hl with (if N.eqb ?a ?b then _ else _) = _ => destruct (N.eqb_spec a b); [auto 10|] end.
+    discriminate. }
+  assert (classify_mode ch = MRankC) as Hc by (destruct Hch as [->|[->|[->|[->| ->]]]]; reflexivity).
+  assert (rankletter_of ch = Some rl) as Hl' by (unfold rankletter_of; exact Hl).
+  unfold mode_char. rewrite Hc, Hl'. cbn zeta. rewrite Hr.
+  rewrite (bool_decide_eq_true_2 _ Hin).
+  destruct (chan_set_rank rl mode_set arg (ms_chan m)) as [co'|] eqn:Hsr; cbn [rbind]; [|discriminate].
+  intros [= <- <- <-]. cbn. auto 10.
+Qed.
+
+(* a rank letter the actor may not use, or naming somebody who is not on the channel, announces nothing *)
+Theorem mode_char_rank_silent ch rl mode_set arg args m m' ms' args' :
+  rankletter_of ch = Some rl -> (rank_may rl r = false \/ arg ∉ dom (ch_users (ms_chan m))) ->
+  mode_char c client target nick r ch mode_set (arg :: args) m = Ok (m', ms', args') ->
+  ms_params m' = ms_params m /\ ms_set m' = ms_set m /\ ms_unset m' = ms_unset m /\ ms_chan m' = ms_chan m.
+Proof.
+  intros Hl Hno. unfold rankletter_of in Hl.
+  assert (ch = 113 \/ ch = 97 \/ ch = 111 \/ ch = 104 \/ ch = 118) as Hch.
+  { repeat match type of Hl with (if N.eqb ?a ?b then _ else _) = _ => destruct (N.eqb_spec a b); [auto 10|] end.
+    discriminate. }
+  assert (classify_mode ch = MRankC) as Hc by (destruct Hch as [->|[->|[->|[->| ->]]]]; reflexivity).
+  assert (rankletter_of ch = Some rl) as Hl' by (unfold rankletter_of; exact Hl).
+  unfold mode_char. rewrite Hc, Hl'. cbn zeta.
+  destruct (rank_may rl r) eqn:Hr.
+  - destruct (bool_decide (arg ∈ dom (ch_users (ms_chan m)))) eqn:Hd.
+    + exfalso. destruct Hno as [?|Hn]; [discriminate|]. apply Hn. now apply bool_decide_eq_true in Hd.
+    + intros [= <- <- <-]. cbn. auto.
+  - change (ms_chan (ms_add_out [err_chanoprivsneeded client target] m)) with (ms_chan m).
+    destruct (bool_decide (arg ∈ dom (ch_users (ms_chan m)))); intros [= <- <- <-]; cbn; auto.
+Qed.
+
+(* an accepted list letter with a mask appends exactly " <sign><letter> <normalised mask>" *)
+Theorem mode_char_list_announced ch ll mode_set mask args m m' ms' args' :
+  listletter_of ch = Some ll -> rk_is_half_operator r = true ->
+  mode_char c client target nick r ch mode_set (mask :: args) m = Ok (m', ms', args') ->
+  ms_params m' = ms_params m ++ [c_space; (if mode_set then c_plus else c_minus); ch; c_space] ++ normalize_mask mask /\
+  ms_set m' = ms_set m /\ ms_unset m' = ms_unset m /\ ms_out m' = ms_out m /\
+  cm_get_list ll (ch_modes (ms_chan m')) =
+    (if mode_set then {[normalize_mask mask]} ∪ cm_get_list ll (ch_modes (ms_chan m))
+     else cm_get_list ll (ch_modes (ms_chan m)) ∖ {[normalize_mask mask]}).
+Proof.
+  intros Hl Hh. unfold listletter_of in Hl.
+  assert (ch = 98 \/ ch = 101 \/ ch = 73) as Hch.
+  { repeat match type of Hl with (if N.eqb ?a ?b then _ else _) = _ => destruct (N.eqb_spec a b); [auto 10|] end.
+    discriminate. }
+  assert (classify_mode ch = MListC) as Hc by (destruct Hch as [->|[->| ->]]; reflexivity).
+  assert (listletter_of ch = Some ll) as Hl' by (unfold listletter_of; exact Hl).
+  unfold mode_char. rewrite Hc, Hl'. cbn zeta. rewrite Hh.
+  intros [= <- <- <-]. cbn. repeat split. destruct ll, mode_set; reflexivity.
+Qed.
+
+(* refused list edit (below half-operator): 482 to the sender, nothing announced, lists untouched *)
+Theorem mode_char_list_refused ch ll mode_set mask args m m' ms' args' :
+  listletter_of ch = Some ll -> rk_is_half_operator r = false ->
+  mode_char c client target nick r ch mode_set (mask :: args) m = Ok (m', ms', args') ->
+  ms_params m' = ms_params m /\ ms_set m' = ms_set m /\ ms_unset m' = ms_unset m /\ ms_chan m' = ms_chan m /\
+  ms_out m' = ms_out m ++ [err_chanoprivsneeded client target].
+Proof.
+  intros Hl Hh. unfold listletter_of in Hl.
+  assert (ch = 98 \/ ch = 101 \/ ch = 73) as Hch.
+  { repeat match type of Hl with (if N.eqb ?a ?b then _ else _) = _ => destruct (N.eqb_spec a b); [auto 10|] end.
+    discriminate. }
+  assert (classify_mode ch = MListC) as Hc by (destruct Hch as [->|[->| ->]]; reflexivity).
+  assert (listletter_of ch = Some ll) as Hl' by (unfold listletter_of; exact Hl).
+  unfold mode_char. rewrite Hc, Hl'. cbn zeta. rewrite Hh.
+  intros [= <- <- <-]. cbn. auto.
+Qed.
+
+(* the key: only the LAST applied state of the key is announced - an earlier "+k x" entry of the same command
+   is withdrawn from the parameter part, an earlier "-k" from the '-' group *)
+Theorem mode_char_key_announced mode_set args m m' ms' args' :
+  rk_is_half_operator r = true ->
+  mode_char c client target nick r 107 mode_set args m = Ok (m', ms', args') ->
+  let params1 := match ms_key_entry m with Some e => remove_first_sub e (ms_params m) | None => ms_params m end in
+  ms_set m' = ms_set m /\ ms_out m' = ms_out m /\ ms_limit_entry m' = ms_limit_entry m /\ ms' = mode_set /\
+  if mode_set then
+    exists arg, args = arg :: args' /\ cm_key (ch_modes (ms_chan m')) = Some arg /\
+      ms_params m' = params1 ++ lit " +k " ++ arg /\ ms_key_entry m' = Some (lit " +k " ++ arg) /\
+      ms_unset m' = remove_char 107 (ms_unset m)
+  else
+    args' = args /\ cm_key (ch_modes (ms_chan m')) = None /\ ms_params m' = params1 /\ ms_key_entry m' = None /\
+    ms_unset m' = remove_char 107 (ms_unset m) ++ [107].
+Proof.
+  intros Hh. unfold mode_char. change (classify_mode 107) with MKeyC. cbn zeta. rewrite Hh.
+  destruct mode_set.
+  - destruct args as [|arg args0]; [discriminate|]. intros [= <- <- <-]. cbn. repeat split. exists arg. repeat split.
+  - intros [= <- <- <-]. cbn. repeat split.
+Qed.
+
+(* the limit: likewise; the argument must be a number *)
+Theorem mode_char_limit_announced mode_set args m m' ms' args' :
+  rk_is_half_operator r = true ->
+  mode_char c client target nick r 108 mode_set args m = Ok (m', ms', args') ->
+  let params1 := match ms_limit_entry m with Some e => remove_first_sub e (ms_params m) | None => ms_params m end in
+  ms_set m' = ms_set m /\ ms_out m' = ms_out m /\ ms_key_entry m' = ms_key_entry m /\ ms' = mode_set /\
+  if mode_set then
+    exists arg n, args = arg :: args' /\ parse_uint usize_max arg = inl n /\ cm_limit (ch_modes (ms_chan m')) = Some n /\
+      ms_params m' = params1 ++ lit " +l " ++ arg /\ ms_limit_entry m' = Some (lit " +l " ++ arg) /\
+      ms_unset m' = remove_char 108 (ms_unset m)
+  else
+    args' = args /\ cm_limit (ch_modes (ms_chan m')) = None /\ ms_params m' = params1 /\ ms_limit_entry m' = None /\
+    ms_unset m' = remove_char 108 (ms_unset m) ++ [108].
+Proof.
+  intros Hh. unfold mode_char. change (classify_mode 108) with MLimitC. cbn zeta. rewrite Hh.
+  destruct mode_set.
+  - destruct args as [|arg args0]; [discriminate|]. destruct (parse_uint usize_max arg) as [n|] eqn:Hp; [|discriminate].
+    intros [= <- <- <-]. cbn. repeat split. exists arg, n. repeat split. exact Hp.
+  - intros [= <- <- <-]. cbn. repeat split.
+Qed.
+
+End announce3.
